@@ -46,6 +46,7 @@ CONSTANTS N,          \* design check: positions 1..N inside the document
           MaxLoops,   \* bound of the repagination loop (8 in layout.go)
           Force,      \* the progress guarantee holds
           MaxPages,   \* state constraint for the Force = FALSE run
+          RemakeMissing, \* the repaired makeAllPages (see MustRemake)
           Chgs,       \* design check: may the page state (counters) of the next page change? subset of BOOLEAN
           Less(_, _)  \* strict order on the points inside the document
 
@@ -74,7 +75,12 @@ StartRound == /\ phase = "start" /\ loop < MaxLoops
               /\ rep' = 0 /\ called' = 0
               /\ UNCHANGED <<items, old, nf>>
 
-MustRemake == old = <<>> \/ items[i].changed \/ items[i].wanted
+\* RemakeMissing describes the code: TRUE since the repair of makeAllPages (a page that the previous round did not
+\* have is laid out); with FALSE (the code before the repair) TLC finds the behaviour that was then reproduced on the
+\* real code: round 1 ends with page k and no reported footnote; in a later round page k reports a footnote,
+\* makeAllPages goes on to page k+1, whose new item is clean (ContentChanged is false when resumeAt is nil), and takes
+\* pages[k+1] of the shorter list of the previous round (IndexSafe fails: index out of range).
+MustRemake == old = <<>> \/ items[i].changed \/ items[i].wanted \/ (RemakeMissing /\ i > Len(old))
 WrongSide == (items[i].side = "left" /\ items[i].right) \/ (items[i].side = "right" /\ ~items[i].right)
 
 \* remakePage stores the initial values of the next page in items[i+1] when they changed (or the item is new),
@@ -86,14 +92,6 @@ StoreNext(res, side, chg) ==
   ELSE IF cur[i + 1].res # res \/ cur[i + 1].side # side \/ cur[i + 1].right # new.right \/ chg
        THEN [cur EXCEPT ![i + 1] = new] ELSE cur
 
-\* ASSUMPTION on the environment (design-level candidate D1; could not be reproduced on the real code, so it is not a
-\* finding): in a repagination round, a page after the end of the content (a page that only carries reported
-\* footnotes) is needed only where the previous round had a page. Without it TLC finds: round 1 ends with page k and no
-\* reported footnote; in round 2 page k is laid out again and reports a footnote; makeAllPages goes on to page k+1,
-\* whose new item is clean (ContentChanged is false when resumeAt is nil), and takes pages[k+1] of the shorter list of
-\* the previous round (IndexSafe fails: index out of range).
-StableFootnotes(to, r) == (loop > 1 /\ to = Top /\ r > 0) => i + 1 <= Len(old)
-
 \* a page made of content. from: where it starts, to: where the next page resumes
 RemakeContent(to, side, chg, calls, placed) ==
   /\ phase = "paging" /\ MustRemake /\ ~WrongSide
@@ -101,7 +99,6 @@ RemakeContent(to, side, chg, calls, placed) ==
   /\ IF Force THEN Before(items[i].res, to) ELSE (Before(items[i].res, to) \/ (to.k = 1 /\ to = [items[i].res EXCEPT !.k = 1]))
   /\ calls \in 0..(nf - called) /\ placed \in 0..(rep + calls)
   /\ called' = called + calls /\ rep' = rep + calls - placed
-  /\ StableFootnotes(to, rep')
   /\ pages' = Append(pages, [blank |-> FALSE, from |-> items[i].res, to |-> to, rep |-> rep'])
   /\ LET its == StoreNext(to, IF to = Top THEN "any" ELSE side, chg) IN
        IF to = Top /\ rep' = 0
@@ -123,7 +120,6 @@ FootnotePage(placed) ==
   /\ phase = "paging" /\ MustRemake /\ ~WrongSide /\ items[i].res = Top /\ rep > 0
   /\ placed \in (IF Force THEN 1 ELSE 0)..rep
   /\ rep' = rep - placed
-  /\ StableFootnotes(Top, rep')
   /\ pages' = Append(pages, [blank |-> TRUE, from |-> Top, to |-> Top, rep |-> rep'])
   /\ LET its == StoreNext(Top, "any", FALSE) IN
        IF rep' = 0
